@@ -309,6 +309,45 @@ func (s *Sem) holds(k Conj, p Prim, depth int, resolve func(ssa.Value) ssa.Value
 	return false
 }
 
+// TrueFacts returns k extended with what follows from the boolean value v being true on this path: the
+// comparison facts of v itself, or - for a value merged by && / || - those of the operand the provenance fact of
+// this path names. ok is false when k says v is false here (the path is a refusal).
+func (s *Sem) TrueFacts(k Conj, v ssa.Value) (Conj, bool) {
+	v = Unwrap(v)
+	for depth := 0; depth < 4; depth++ {
+		if c, isC := v.(*ssa.Const); isC {
+			if c.Value != nil && c.Value.Kind() == constant.Bool && !constant.BoolVal(c.Value) {
+				return k, false
+			}
+			return k, true
+		}
+		if k.Has(Fact{X: v, Pol: false}) {
+			return k, false
+		}
+		if phi, isPhi := v.(*ssa.Phi); isPhi {
+			next := ssa.Value(nil)
+			for _, f := range k.List() {
+				if f.Op == token.EQL && f.X == ssa.Value(phi) && f.Y != nil {
+					next = f.Y
+				}
+			}
+			if next == nil {
+				return k.With(Fact{X: v, Pol: true}), true
+			}
+			v = Unwrap(next)
+			continue
+		}
+		for _, f := range s.C.F.CondFacts(v, true) {
+			if contradicts(k, f) {
+				return k, false
+			}
+			k = k.With(f)
+		}
+		return k, true
+	}
+	return k, true
+}
+
 // ResultCase is one way a module function can have produced the value a caller holds: the returned value in
 // the callee's frame together with the facts of one disjunct at that return.
 type ResultCase struct {
